@@ -218,8 +218,8 @@ func ZZH_C20_TableCells() {
 	got := zzhExport(opts, []interface{}{&document.Table{Rows: rows}})
 	pos := -1
 	for _, t := range texts {
-		zzvAssert(strings.Count(got, t) == 1, "table: every cell's text is present exactly once")
 		p := strings.Index(got, t)
+		zzvAssert(p >= 0 && strings.Index(got[p+len(t):], t) < 0, "table: every cell's text is present exactly once")
 		zzvAssert(p > pos, "table: cell texts appear in reading order")
 		pos = p
 	}
